@@ -399,6 +399,9 @@ def name_for(i):
     return SPECIAL[i - 255]
 
 
+DEEP = ''.join('/' + chr(0x6df1 + k) * 80 for k in range(6))
+
+
 def _bytes_case(i, layout, depth):
     with rt.untraced():
         name = name_for(i)
@@ -407,7 +410,8 @@ def _bytes_case(i, layout, depth):
             return rt.ok()
         lay = LAYOUTS[layout]
         base = '/h/w' if lay == 'home' else '/v/w'
-        d = base + ('/s p/é' if depth else '')
+        # depth 2: six nested directories of 80 CJK characters each: ~1.5 KB of path, ~4.4 KB once %-escaped
+        d = base + ('' if depth == 0 else '/s p/é' if depth == 1 else DEEP)
         path = d + '/' + name
         rt.begin((repr(name[:12]), lay, depth))
         nodes = [W.d('/h'), W.d(d), ['f', path, 0o644, 'PAYLOAD', 1000]]
@@ -518,10 +522,10 @@ def w_fall(direction: int, e: int, kind: int) -> str:
 def w_bytes(i: int, layout: int, depth: int) -> str:
     """
     pre: PARTITION is None or layout == PARTITION
-    pre: 0 <= i < 285 and 0 <= layout < 3 and 0 <= depth < 2
+    pre: 0 <= i < 285 and 0 <= layout < 3 and 0 <= depth < 3
     post: _ == ''
     """
-    return _bytes_case(rt.sel(i, 285), rt.sel(layout, 3), rt.sel(depth, 2))
+    return _bytes_case(rt.sel(i, 285), rt.sel(layout, 3), rt.sel(depth, 3))
 
 
 def obligations(tier):
@@ -548,7 +552,7 @@ def obligations(tier):
            encodes=['OriginalLocation._calc_parent_path'], bounds='volume: any str len 2..3 starting with /; parent = volume + tail, tail any str len<=3 not starting with /'),
         CH('W_every_byte_value', MOD, 'w_bytes', timeout=900, partitions=[0, 1, 2], engine='W', regime='selector',
            encodes=K.PUT_FUNCS + K.LIST_FUNCS, stubs=K.STUBS,
-           bounds='names: every single byte 1..255 except "/" (0x80.. as undecodable bytes) + 30 special names incl. 255-byte names x 3 layouts x 2 depths'),
+           bounds='names: every single byte 1..255 except "/" (0x80.. as undecodable bytes) + 30 special names incl. 255-byte names x 3 layouts x 3 depths (top level, two short components, six 240-byte CJK components: a .trashinfo of 4.4 KB)'),
         CH('W_path_rule_after_candidate_fallthrough', MOD, 'w_fall', timeout=600, engine='W', regime='selector',
            encodes=K.PUT_FUNCS, stubs=K.STUBS + ['persistent errno on one directory'],
            bounds='3 fall-through directions (home->.Trash-uid, .Trash-uid->home fallback, .Trash/uid->.Trash-uid) x 4 errnos x 6 kinds'),
